@@ -47,6 +47,7 @@ type WorkerResult struct {
 }
 
 type Ctx struct {
+	noTermination int // executions stopped on a CPU budget (see c20Judge)
 	Prop       string
 	Tier       string
 	Seed       int64
@@ -87,7 +88,9 @@ func (c *Ctx) N(quick, thorough int) int {
 // Mine advances the running case index and says whether this shard owns it.
 func (c *Ctx) Mine() bool {
 	c.idx++
-	if c.idx <= c.Resume {
+	if c.idx <= c.Resume || c.noTermination >= 2 {
+		// after two executions that burned their CPU budget without ending, the shard stops producing cases
+		// (each further one would cost the full budget again); the violations are already recorded
 		return false
 	}
 	return int(c.idx%int64(c.NShards)) == c.Shard
